@@ -1,1 +1,261 @@
-pub fn run(_ctx: mc_core::Ctx) -> ! { mc_core::report::machinery_failure("todo") }
+//! C13 — KES evolution erases all signing material of past periods.
+//! SEQ / model checking over the complete evolution history of every sum /
+//! compact-sum type. Oracle: an independent seed-tree model (own Blake2b,
+//! ed25519-dalek, sha2) that is first BOUND to the implementation (same root
+//! public key; model leaf key p verifies the implementation's period-p
+//! signature) and then tells, for every reachable key state t, which 32-byte
+//! values would let an attacker re-derive a signing key of a period < t. None
+//! of them may occur at any offset of `as_bytes()`.
+
+use crate::kes::{self, KesType};
+use ed25519_dalek::{Signature as DSig, SigningKey, Verifier, VerifyingKey};
+use mc_core::blake2b::blake2b_256;
+use mc_core::{cov, json, Ctx, Level, Value};
+use rayon::prelude::*;
+use sha2::{Digest, Sha512};
+use std::collections::BTreeMap;
+
+/// One node of the model tree, covering leaves lo..hi.
+struct MNode {
+    seed: [u8; 32],
+    lo: u32,
+    hi: u32,
+    /// right child of its parent (its seed is what the implementation keeps
+    /// for a subtree that lies wholly in the future)
+    is_right: bool,
+    leaf_pk: Option<[u8; 32]>,
+}
+
+/// `left = H(01 || s)`, `right = H(02 || s)`; a leaf's seed is its Ed25519
+/// secret key; an inner node's key is H(pk_left || pk_right). Returns the
+/// subtree's public key.
+fn build(seed: [u8; 32], depth: u32, lo: u32, is_right: bool, out: &mut Vec<MNode>) -> [u8; 32] {
+    if depth == 0 {
+        let pk = SigningKey::from_bytes(&seed).verifying_key().to_bytes();
+        out.push(MNode { seed, lo, hi: lo + 1, is_right, leaf_pk: Some(pk) });
+        return pk;
+    }
+    let half = 1u32 << (depth - 1);
+    out.push(MNode { seed, lo, hi: lo + 2 * half, is_right, leaf_pk: None });
+    let l = blake2b_256(&[&[1u8][..], &seed].concat());
+    let r = blake2b_256(&[&[2u8][..], &seed].concat());
+    let pl = build(l, depth - 1, lo, false, out);
+    let pr = build(r, depth - 1, lo + half, true, out);
+    blake2b_256(&[pl, pr].concat())
+}
+
+/// Every (offset, value, description) at which a forbidden 32-byte value occurs.
+fn find_forbidden(buf: &[u8], forbidden: &BTreeMap<[u8; 32], String>) -> Vec<(usize, [u8; 32], String)> {
+    let mut hits = vec![];
+    for off in 0..=buf.len().saturating_sub(32) {
+        let win: [u8; 32] = buf[off..off + 32].try_into().unwrap();
+        if let Some(d) = forbidden.get(&win) {
+            hits.push((off, win, d.clone()));
+        }
+    }
+    hits
+}
+
+#[derive(Default)]
+struct Stats {
+    scanner_selftests: u64,
+    states: u64,
+    transitions: u64,
+    traces_bound: u64,
+    windows: u64,
+    forbidden_values: u64,
+    leaf_bindings: u64,
+    expected_present_checks: u64,
+    seed_not_zeroed: u64,
+    sample: Option<Value>,
+}
+
+fn check(ctx: &Ctx, ty: &KesType, seed: &[u8; 32]) -> Stats {
+    let mut s = Stats::default();
+    let total: u32 = 1 << ty.depth;
+    let msg = kes::pattern(40, 13);
+    let msgs = vec![msg.clone()];
+    let own = |t: u32| vec![t];
+    let w = (ty.walk)(seed, &msgs, &own);
+    let base = |t: u32| json!({"type": ty.name, "depth": ty.depth, "seed": hex::encode(seed), "updates": t});
+    if let Some((op, p)) = &w.panic {
+        ctx.violation(p.site(), format!("{}::{op} panicked: {} at {}", ty.name, p.message, p.location), base(w.steps.len() as u32));
+        return s;
+    }
+    if w.steps.len() as u32 != total {
+        // evolution itself is wrong (C12's subject); the model cannot be bound
+        mc_core::report::machinery_failure(&format!("C13: {} walked {} states instead of {total}; see C12", ty.name, w.steps.len()));
+    }
+
+    // ---- model and binding
+    let mut nodes = vec![];
+    let root_pk = build(*seed, ty.depth, 0, false, &mut nodes);
+    if root_pk != w.keygen_pk {
+        mc_core::report::machinery_failure(&format!(
+            "C13: seed-tree model is not the implementation's derivation: model root key {} but {}::keygen returned {}",
+            hex::encode(root_pk),
+            ty.name,
+            hex::encode(w.keygen_pk)
+        ));
+    }
+    for st in &w.steps {
+        let leaf = nodes.iter().find(|n| n.leaf_pk.is_some() && n.lo == st.t).expect("leaf");
+        let sig = &st.sigs[0].bytes;
+        let ok = VerifyingKey::from_bytes(&leaf.leaf_pk.unwrap())
+            .ok()
+            .and_then(|vk| DSig::from_slice(&sig[..64]).ok().map(|sg| vk.verify(&msg, &sg).is_ok()))
+            .unwrap_or(false);
+        if !ok {
+            mc_core::report::machinery_failure(&format!("C13: model leaf key {} does not verify the period-{} signature of {}", st.t, st.t, ty.name));
+        }
+        s.leaf_bindings += 1;
+    }
+    s.traces_bound = 1;
+    if w.seed_after_keygen != [0u8; 32] {
+        s.seed_not_zeroed += 1;
+    }
+
+    // ---- forbidden-set scan of every reachable key state
+    let mut trace = vec![];
+    for st in &w.steps {
+        let t = st.t;
+        s.states += 1;
+        let mut forbidden: BTreeMap<[u8; 32], String> = BTreeMap::new();
+        for n in nodes.iter().filter(|n| n.lo < t) {
+            if n.leaf_pk.is_some() {
+                forbidden.insert(n.seed, format!("leaf-seed:Ed25519 secret key of period {}", n.lo));
+                let h: [u8; 64] = Sha512::digest(n.seed).into();
+                let mut scalar: [u8; 32] = h[..32].try_into().unwrap();
+                forbidden.insert(scalar, format!("expanded-key:unclamped SHA-512 half of period {}", n.lo));
+                scalar[0] &= 248;
+                scalar[31] &= 63;
+                scalar[31] |= 64;
+                forbidden.insert(scalar, format!("expanded-key:secret scalar of period {}", n.lo));
+                forbidden.insert(h[32..].try_into().unwrap(), format!("expanded-key:nonce prefix of period {}", n.lo));
+            } else if n.lo == 0 && n.hi == total {
+                forbidden.insert(n.seed, "master-seed:derives every period".to_string());
+            } else {
+                forbidden.insert(n.seed, format!("node-seed:derives periods {}..{}", n.lo, n.hi - 1));
+            }
+        }
+        s.forbidden_values += forbidden.len() as u64;
+        let mut scan = |buf: &[u8], what: &str| {
+            for (off, win, desc) in find_forbidden(buf, &forbidden) {
+                let (kind, rest) = desc.split_once(':').unwrap();
+                let mut c = base(t);
+                c["offset"] = json!(off);
+                c["value"] = json!(hex::encode(win));
+                c["state"] = json!(what);
+                ctx.violation(format!("{}:retains-{kind}", ty.family), format!("{} at period {t}: key buffer offset {off} holds the {kind} ({rest})", ty.name), c);
+            }
+            s.windows += (buf.len() - 31) as u64;
+        };
+        scan(&st.buf, "after update");
+        if let Some((after, _)) = &st.after_failed_update {
+            if after != &st.buf {
+                scan(after, "after the refused update");
+            }
+        }
+        // scanner self-test in the last state: a planted past seed at an odd
+        // offset of a copy of the real buffer must be found
+        if t + 1 == total {
+            let (val, _) = forbidden.iter().next().expect("non-empty in the last state");
+            let mut planted = st.buf.clone();
+            let off = 33.min(planted.len() - 32);
+            planted[off..off + 32].copy_from_slice(val);
+            if !find_forbidden(&planted, &forbidden).iter().any(|(o, w, _)| *o == off && w == val) {
+                mc_core::report::machinery_failure("C13: scanner self-test failed (planted past seed not found)");
+            }
+            s.scanner_selftests += 1;
+        }
+        // the model must describe what IS there as well: current leaf key at the
+        // start of the buffer, and the seed of every wholly-future right sibling
+        let leaf = nodes.iter().find(|n| n.leaf_pk.is_some() && n.lo == t).unwrap();
+        if st.buf[..32] != leaf.seed {
+            mc_core::report::machinery_failure(&format!("C13: {} at period {t}: the buffer does not start with the model's current leaf key; the model does not describe this layout", ty.name));
+        }
+        s.expected_present_checks += 1;
+        let mut future_present = 0;
+        for n in nodes.iter().filter(|n| n.is_right && n.lo > t) {
+            // parent covers t  <=>  sibling range [2*lo - hi, lo) contains t
+            let sib_lo = n.lo - (n.hi - n.lo);
+            if sib_lo <= t && t < n.lo {
+                s.expected_present_checks += 1;
+                if !st.buf.windows(32).any(|w| w == n.seed) {
+                    mc_core::report::machinery_failure(&format!("C13: {} at period {t}: seed of the future subtree {}..{} is not in the buffer; the model does not describe this layout", ty.name, n.lo, n.hi - 1));
+                }
+                future_present += 1;
+            }
+        }
+        if trace.len() < 3 || t + 1 == total {
+            trace.push(json!({"t": t, "forbidden_values": forbidden.len(), "windows": st.buf.len() - 31, "future_subtree_seeds_present": future_present}));
+        }
+    }
+    s.transitions = w.updates_attempted;
+    s.sample = Some(json!({"type": ty.name, "seed": hex::encode(seed), "buffer_len": ty.buf_len, "trace(first states and last)": trace}));
+    s
+}
+
+pub fn run(ctx: Ctx) -> ! {
+    let types = kes::all_types();
+    // the all-zero seed is excluded on purpose: erasure writes zeros, so an
+    // erased master seed and a retained one could not be told apart
+    let nseeds = if ctx.thorough { 16 } else { 3 };
+    let seeds: Vec<[u8; 32]> = crate::c12::seeds(nseeds + 1).into_iter().skip(1).collect();
+    let mut jobs: Vec<(KesType, [u8; 32])> = types.iter().flat_map(|t| seeds.iter().map(move |s| (*t, *s))).collect();
+    jobs.sort_by_key(|(t, _)| std::cmp::Reverse(t.depth));
+    let per: Vec<Stats> = jobs.par_iter().map(|(ty, seed)| check(&ctx, ty, seed)).collect();
+    let mut tot = Stats::default();
+    let mut samples = vec![];
+    for (i, s) in per.into_iter().enumerate() {
+        tot.states += s.states;
+        tot.transitions += s.transitions;
+        tot.traces_bound += s.traces_bound;
+        tot.windows += s.windows;
+        tot.forbidden_values += s.forbidden_values;
+        tot.leaf_bindings += s.leaf_bindings;
+        tot.expected_present_checks += s.expected_present_checks;
+        tot.seed_not_zeroed += s.seed_not_zeroed;
+        tot.scanner_selftests += s.scanner_selftests;
+        let (ty, _) = &jobs[i];
+        if let Some(v) = s.sample {
+            if (ty.depth == 3 || ty.depth == 7) && samples.len() < 4 && jobs[..i].iter().filter(|(t, _)| t.name == ty.name).count() == 0 {
+                samples.push(v);
+            }
+        }
+    }
+    let expect_states: u64 = seeds.len() as u64 * 2 * (1..=7).map(|d| 1u64 << d).sum::<u64>();
+    if ctx.violation_count() == 0 && (tot.states != expect_states || tot.traces_bound != jobs.len() as u64 || tot.forbidden_values == 0 || tot.windows == 0) {
+        mc_core::report::machinery_failure(&format!("C13: coverage differs from the stated space: states {} (expected {expect_states}), bound traces {} of {}", tot.states, tot.traces_bound, jobs.len()));
+    }
+    if tot.seed_not_zeroed > 0 {
+        ctx.note(format!("diagnostic: the caller's seed buffer was not all-zero after keygen in {} walks (not part of the key buffer, hence outside the property)", tot.seed_not_zeroed));
+    }
+    let cov = cov! {
+        "states" => tot.states,
+        "transitions" => tot.transitions,
+        "traces_validated_against_impl" => tot.traces_bound,
+        "samples" => samples,
+        "rule" => "state = (KES type, seed, number of updates t), reached by update^t on a real key; a trace = the maximal evolution history of one (type, seed); it counts as validated when the independent seed-tree model (left = Blake2b-256(01||s), right = Blake2b-256(02||s), leaf seed = Ed25519 secret, node key = Blake2b-256(pk_l||pk_r)) reproduces keygen's public key and each of its 2^d leaf keys verifies (ed25519-dalek) the implementation's signature of that period. In every state every 32-byte window of as_bytes() is looked up in F(t) = {Ed25519 secret, SHA-512 expansion halves (raw, clamped scalar, nonce prefix) of every leaf p < t} + {seed of every inner node, master seed included, whose subtree contains a leaf p < t}",
+        "exhaustive" => true,
+        "fixpoint" => true,
+        "kes_types" => types.len(),
+        "seeds" => seeds.len(),
+        "windows_scanned" => tot.windows,
+        "forbidden_values_summed_over_states" => tot.forbidden_values,
+        "leaf_keys_bound_to_signatures" => tot.leaf_bindings,
+        "expected_material_found(current leaf key, future subtree seeds)" => tot.expected_present_checks,
+        "caller_seed_buffer_not_zeroed(diagnostic)" => tot.seed_not_zeroed,
+        "scanner_selftests_passed(planted past seed found)" => tot.scanner_selftests,
+    };
+    ctx.finish(
+        Level::ModelChecking,
+        cov,
+        &[
+            "material is searched for as contiguous 32-byte values (verbatim seed, SHA-512 halves, clamped scalar) at every byte offset; other encodings of a past key (split, masked, re-hashed) are outside the model",
+            "only the key buffer (as_bytes) is inspected, not stack temporaries or the caller's seed buffer",
+            "the all-zero seed is excluded because zero is the erasure pattern; seeds are all-ff, counter and pseudo-random fills",
+            "Blake2b preimage resistance: a retained value that is not in F(t) cannot derive a past key",
+        ],
+    )
+}
